@@ -63,6 +63,8 @@ def generate(rng, tier):
     ids = [f"i{j}" for j in range(rng.randint(1, 5))]
     if rng.random() < 0.15:
         ids[rng.randrange(len(ids))] = rng.choice(["", "", "{x}", "%s", "{}"])    # falsy, or with format / template syntax
+    if rng.random() < 0.1:
+        ids[rng.randrange(len(ids))] = "ENVIRONMENT"       # an agent that happens to be called like the environment itself
     pool = [{"id": rng.choice(ids), "comps": sorted(rng.sample(range(3), rng.randint(0, 3)))} for _ in range(rng.randint(2, 16 if tier == "thorough" else 10))]
     ops = []
     for _ in range(rng.randint(5, 80 if tier == "thorough" else 50)):
